@@ -62,6 +62,7 @@ impl BandTracker {
 
 #[derive(Default)]
 pub struct C07 {
+    sh: FundingShadow,
     band: BandTracker,
     expect: Option<(String, String)>, // (signature context, detail) when all antecedents hold
 }
@@ -72,6 +73,7 @@ impl Monitor for C07 {
     }
     fn begin(&mut self, _w: &World, s0: &Snap, _r: &mut Report) {
         self.band.begin(s0);
+        self.sh.begin(s0);
     }
     fn pre(&mut self, w: &World, op: &Op, pre: &Snap, r: &mut Report) {
         self.expect = None;
@@ -80,7 +82,7 @@ impl Monitor for C07 {
         if !quote_asset_limit.is_zero() {
             return;
         }
-        let Some(mut view) = pos_view(w, pre, vi, trader) else { return };
+        let Some(mut view) = pos_view_sh(w, pre, vi, trader, &mut self.sh) else { return };
         if view.pos.size == 0 {
             return;
         }
@@ -179,8 +181,9 @@ impl Monitor for C07 {
             ),
         ));
     }
-    fn post(&mut self, _w: &World, st: &Step, r: &mut Report) {
+    fn post(&mut self, w: &World, st: &Step, r: &mut Report) {
         self.band.observe(&st.pre, &st.post);
+        self.sh.observe(w, st);
         let Some((ctx, detail)) = self.expect.take() else { return };
         if st.armed.is_some() && st.out.fault_fired {
             return;
